@@ -35,6 +35,7 @@ type Config struct {
 	Mode         string       `json:"mode,omitempty"`       // seq (model-checked) | lin (C07) | raw (C09)
 	PathKeys     bool         `json:"pathKeys,omitempty"`   // the key universe holds a key below another key (refused uploads are legitimate on fs)
 	HostBase     bool         `json:"hostBase,omitempty"`   // WithHostBucketBase("sim"): about half of the bucket-addressed requests travel virtual-host style
+	AmzDate      bool         `json:"amzDate,omitempty"`    // requests carry x-amz-date with the simulated clock's current time (always within the skew limit)
 	LateEOF      bool         `json:"lateEOF,omitempty"`    // request bodies report EOF in a separate read (HTTP/2, buffering middleware)
 	LinUploads   [][2]string  `json:"linUploads,omitempty"` // (bucket, key) of multipart uploads initiated by setup (C07)
 }
